@@ -112,7 +112,8 @@ Qed.
 Lemma terminal_mu s : Inv s -> terminal s -> mu s = None.
 Proof.
   intros HI Ht. destruct (mu s) as [j|] eqn:E; auto. exfalso.
-  destruct (i_mu _ HI _ E) as (fs & Hj). exact (terminal_blocked _ _ _ Ht Hj).
+  destruct (i_mu _ HI _ E) as (p & Hj & Hh). pose proof (terminal_blocked _ _ _ Ht Hj) as Hb.
+  destruct p; cbn in Hh; try discriminate; exact Hb.
 Qed.
 
 Lemma terminal_closed s : Inv s -> terminal s -> closed s = true ->
@@ -129,7 +130,7 @@ Proof.
   intros HI Ht H.
   assert (Hc : closed s = true).
   { destruct (closed s) eqn:Hc; auto. exfalso. destruct H as [H|H].
-    - destruct (i_open _ HI Hc) as (_ & _ & _ & _ & _ & _ & _ & _ & _ & Ha). congruence.
+    - destruct (i_open _ HI Hc) as (_ & _ & _ & _ & _ & _ & _ & _ & _ & Ha & _). congruence.
     - destruct (i_timer _ HI H) as [?|(j & p & Hj & Hp)]; [congruence|].
       pose proof (terminal_blocked _ _ _ Ht Hj) as Hb. pose proof (i_loc _ HI _ _ Hj) as HL.
       destruct p; cbn in Hp; try discriminate; cbn in Hb; auto. }
